@@ -2,7 +2,7 @@
 SPEC = dict(
     title="Shutdown waits for in-flight snapshot or backup only as long as needed",
     pkg="./store", files=["store/c31_verif_test.go"],
-    rule="real BeginWithRetry on a grid of 2 (thorough: 5x4) retry intervals x 4 timeouts x 8 holder release times (gate free, never released, and "
+    rule="real BeginWithRetry on a grid of 2 (thorough: 5x4) retry intervals (120-400 ms) x 4 timeouts x 8 holder release times (gate free, never released, and "
          "half-interval offsets on both sides of the deadline), plus real Store.Close with the snapshot gate held for 0, 5, 50, 500, 2000 and 11000 ms "
          "(thorough: 12 hold times up to 12 s); non-trivial when the holder releases after the first poll and the caller then acquires; distinct by grid point",
     exhaustive=False,
